@@ -1,0 +1,11 @@
+//go:build verif
+
+package stat
+
+import "github.com/alibaba/sentinel-golang/core/base"
+
+// VerifResetInboundNode recreates the global inbound node under the current clock
+// (verification builds only).
+func VerifResetInboundNode() {
+	inboundNode = NewResourceNode(base.TotalInBoundResourceName, base.ResTypeCommon)
+}
